@@ -37,3 +37,11 @@ Example c08_witness :
   let '(cs, r, _) := write_buffers_to_run [[48; 5; 0; 1; 116]; [7; 8; 9]] [(3, WTimeout); (1, WTimeout); (0, WOk); (0, WOk)] in
   r = WOk /\ accepted_all cs = [48; 5; 0; 1; 116; 7; 8; 9].
 Proof. vm_compute. split; reflexivity. Qed.
+
+(* Any number of goroutines submitting at the same time: at most one of them is between taking and
+   returning the write token, in every reachable state of the L3 monitor (faithful traces). *)
+From MQ Require Import Sync SyncProofs.
+Theorem c08_write_token_exclusive : ltac:(let t := type of write_token_exclusive in exact t).
+Proof. exact write_token_exclusive. Qed.
+Check c08_write_token_exclusive.
+Print Assumptions c08_write_token_exclusive.
